@@ -39,6 +39,7 @@ def run(ck):
     ck.clause("C05.3", "per-query winner = ARGMAX(confidence) over all candidates, None when there is none")
     ck.clause("C05.4", "seed peaks = top `count` by score, descending")
     ck.clause("C05.5", "'best' mode rows are sorted by query id")
+    ck.clause("C05.6", "'best' mode: a query's single-pass record is left out exactly when the query has a joined record")
 
     create, rows_term, cpath = filter_fn(ck)
     if rows_term is None:
@@ -213,6 +214,24 @@ def run(ck):
             ck.judge(kp == ("queryId",) and desc is False, "C05.5", "execute[best]:order", w,
                      "rows of mode 'best' are sorted by query id ascending", found=f"key {kp}, descending={desc}",
                      required="key queryId ascending")
+            # ---- C05.6 exclusion of joined queries: <row>.queryId not in [<joined row>.queryId ...]
+            tests = [x for x in T.subterms(v) if x[0] in ("notin", "in")]
+            ck.floor("C05.6 membership tests in the 'best' branch", len(tests), 1)
+            for x in tests:
+                lhs, rhs = x[1], x[2]
+                la = lhs[2] if lhs[0] == "attr" else None
+                ra = None
+                if rhs[0] == "comp" and rhs[2][0] == "attr":
+                    ra = rhs[2][2]
+                elif rhs[0] == "call" and rhs[1] in ("set", "list", "frozenset", "tuple") and rhs[2] and rhs[2][0][0] == "comp" \
+                        and rhs[2][0][2][0] == "attr":
+                    ra = rhs[2][0][2][2]
+                if la is None or ra is None:
+                    raise AnalysisError(f"{w}: membership test of the 'best' branch not recognised: {T.show(x)[:200]}")
+                ck.judge(la == "queryId" and ra == "queryId" and x[0] == "notin", "C05.6", "execute[best]:joined-exclusion", w,
+                         "a single-pass record is left out iff its *query id* is among the query ids of the joined records",
+                         found=f"<row>.{la} {'not in' if x[0] == 'notin' else 'in'} [<joined>.{ra} ...]",
+                         required="<row>.queryId not in [<joined>.queryId ...]")
 
 
 # groupby sites whose input is deliberately not sorted by the key: (function, reason)
@@ -282,13 +301,46 @@ def seeds(ck, rule):
     ctx = ck.ctx
     fn = ctx.p.find_method("PeaksSelector", "selectPeaks")
     rets = [pa for pa in explore(ck, fn) if pa.outcome == "return"]
-    if len(rets) != 1:
-        raise AnalysisError(f"{fn.where}: selectPeaks expected to have a single return")
-    v = rets[0].value
-    w = where(fn, rets[0].node)
-    tk = as_topk(ctx, v)
-    if tk is None:
-        raise AnalysisError(f"{w}: top-N selection idiom not recognised: {T.show(v)[:200]}")
+    if not rets:
+        raise AnalysisError(f"{fn.where}: selectPeaks has no return path")
+    ranked = [(pa, as_topk(ctx, pa.value)) for pa in rets]
+    main = [(pa, tk) for pa, tk in ranked if tk is not None]
+    for pa, tk in ranked:
+        if tk is not None:
+            continue
+        # a return path that does not rank: only "no candidate at all -> no seed" is compatible with the property
+        v = pa.value
+        w = where(fn, pa.node)
+        empty_value = v in (("list", ()), ("tuple", ())) or (v[0] == "call" and v[1] in ("list", "tuple") and not v[2])
+        conds = [(c, tv) for c, tv, _ in pa.state.assumptions]
+
+        def says_empty(c, tv):
+            c0, pos = T.positive(c)
+            truth = tv if pos else (not tv)
+            if c0[0] == "call" and c0[1] in ("any", "bool", "len") and truth is False:
+                return True
+            if c0[0] in ("v", "comp", "attr", "concat") and truth is False:
+                return True
+            if c0[0] == "eq" and C(0) in c0[1:] and any(x[0] == "call" and x[1] == "len" for x in c0[1:]) and truth is True:
+                return True
+            return False
+        if empty_value and conds and all(says_empty(c, tv) for c, tv in conds):
+            ck.ok(rule, short(fn) + ":no-candidates", w, "no seed is returned only when there is no candidate peak",
+                  "; ".join(T.show(c)[:80] for c, _ in conds))
+        elif not main and len(rets) == 1:
+            raise AnalysisError(f"{w}: top-N selection idiom not recognised: {T.show(v)[:200]}")
+        else:
+            ck.violation(rule, short(fn) + ":unranked-return", w, "a return path hands back seeds that did not pass the ranking "
+                         "(generation order instead of descending score, or seeds withheld although candidates exist)",
+                         found=f"return {T.show(v)[:120]} when " + "; ".join(("" if tv else "not ") + T.show(c)[:100] for c, tv in conds),
+                         required="TOPK(key=peak.score, k=self.count, descending) on every path with candidates")
+    if not main:
+        if any(o.status == "VIOLATION" for o in ck.obligations if o.rule == rule):
+            return
+        raise AnalysisError(f"{fn.where}: no return path of selectPeaks ranks the peaks")
+    pa0, tk = main[0]
+    v = pa0.value
+    w = where(fn, pa0.node)
     probs = []
     if tk["key"] not in (("peak", "score"), ("score",)):
         probs.append(f"ranks by {tk['key']}")
@@ -298,6 +350,9 @@ def seeds(ck, rule):
         probs.append(f"keeps {T.show(tk['k'])} peaks")
     ck.judge(not probs, rule, short(fn), w, "seeds = the `count` highest-scoring peaks over all correlations, descending",
              found="; ".join(probs) if probs else T.show(v)[:200], required="TOPK(key=peak.score, k=self.count, descending)")
+    # the candidates arrive as a one-shot iterator (chain of generators): nothing may consume them before the ranking
+    from ..rules.iters import run_iterator_rule
+    run_iterator_rule(ck, rule, [fn])
     # all peaks of all correlations take part
     inp = tk["input"]
     ok = inp[0] == "comp" and len(inp[3]) == 2 and not inp[3][0][1] and not inp[3][1][1] \
